@@ -40,9 +40,12 @@ type PipeConn struct {
 	Stream   bool   // true: a Read may return bytes of several writes (TCP); false: one write per Read (datagram-like)
 	NoEOF    bool   // datagram sockets: the peer going away is not observable (no EOF)
 	PostRead bool   // a scheduling point lies between the return of a Read and the caller's next step
+	MaxDatagram int // > 0: a Write of more bytes fails with EMSGSIZE (UDP: 65507)
 	Window   int    // > 0: a Write blocks while that many bytes written by this end are still unread by the peer (a peer that stopped reading, buffers full)
 	timedOut bool
 	timer    *vsched.Timer
+	wTimedOut bool
+	wtimer   *vsched.Timer
 	Written  []byte // every byte this end wrote
 	Writes   []int  // size of each Write call
 	Reads    int
@@ -145,6 +148,12 @@ func (c *PipeConn) Write(p []byte) (int, error) {
 	if !vsched.Active() {
 		return 0, net.ErrClosed
 	}
+	if c.Window > 0 && c.wTimedOut && c.pendingOut() >= c.Window {
+		return 0, os.ErrDeadlineExceeded
+	}
+	if c.MaxDatagram > 0 && len(p) > c.MaxDatagram {
+		return 0, &net.OpError{Op: "write", Net: "udp", Err: os.NewSyscallError("sendto", syscall.EMSGSIZE)}
+	}
 	b := make([]byte, len(p))
 	if len(p) > 0 {
 		// like a real socket write: the caller's buffer was read by this thread
@@ -165,14 +174,19 @@ func always() bool { return true }
 //
 //go:norace
 func (c *PipeConn) writable() bool {
-	if c.closed || c.wr.rclosed || !vsched.Active() {
+	if c.closed || c.wr.rclosed || c.wTimedOut || !vsched.Active() {
 		return true
 	}
+	return c.pendingOut() < c.Window
+}
+
+//go:norace
+func (c *PipeConn) pendingOut() int {
 	n := 0
 	for _, s := range c.wr.segs {
 		n += len(s)
 	}
-	return n < c.Window
+	return n
 }
 
 // Close implements net.Conn.
@@ -246,7 +260,10 @@ func (c *PipeConn) RemoteAddr() net.Addr { return c.remote }
 // (earliest first) and makes pending and future reads fail with a timeout.
 //
 //go:norace
-func (c *PipeConn) SetDeadline(t time.Time) error { return c.SetReadDeadline(t) }
+func (c *PipeConn) SetDeadline(t time.Time) error {
+	c.SetWriteDeadline(t)
+	return c.SetReadDeadline(t)
+}
 
 //go:norace
 func (c *PipeConn) SetReadDeadline(t time.Time) error {
@@ -260,7 +277,20 @@ func (c *PipeConn) SetReadDeadline(t time.Time) error {
 	return nil
 }
 
-func (c *PipeConn) SetWriteDeadline(t time.Time) error { return nil }
+// SetWriteDeadline matters only for connections with a send window: a Write that is blocked when the deadline
+// fires (at quiescence, like every timer) fails with os.ErrDeadlineExceeded and writes nothing.
+//
+//go:norace
+func (c *PipeConn) SetWriteDeadline(t time.Time) error {
+	c.wtimer.Cancel()
+	c.wtimer = nil
+	c.wTimedOut = false
+	if !t.IsZero() && c.Window > 0 {
+		cc := c
+		c.wtimer = vsched.AddTimer(t.UnixNano(), "write deadline "+c.Name, func() { cc.wTimedOut = true })
+	}
+	return nil
+}
 
 // DialRec is one logged dial attempt.
 type DialRec struct {
